@@ -280,6 +280,10 @@ def part_k(chk, tier, variant=None):
     if meta:
         chk.sample({"kind": "archive", "members": meta[0][2][:6], "index": res[0]["res"]["actions"][0]})
     broken = bool(m1 or m2 or m3 or m4 or m5 or errs)
+    if os.environ.get("C16_DEBUG") and m3:
+        for i in m3[:5]:
+            k, pth = tree_meta[i]
+            print("TREE MISMATCH", pth, tree_cases[i][-300:], json.dumps(meta[k][2]))
     if broken:
         detail = {"index": [meta[idx_meta[i]][2] for i in m1[:3]],
                   "vfs": [{"members": meta[vfs_meta[i]][2], "calls": meta[vfs_meta[i]][4]} for i in m2[:2]],
